@@ -1,5 +1,6 @@
 import GwModel.Select
 import GwModel.Gen.Facts
+import GwModel.PlanPlaced
 /-! # C20 — Multi-homed fields are fetched by priority, then locality
 
 The chooser of plan.go is modelled by `Sel.selectLocation`, instantiated with the priority order extracted
@@ -63,5 +64,21 @@ theorem chosen_stable (possible configured : List Loc) (parent internal l : Loc)
 example : selectLocation Gen.selectLoc ["A", "B", "C"] ["Z", "C", "B"] "A" "gw" = some "C" ∧
           selectLocation Gen.selectLoc ["A", "B"] ["Z"] "B" "gw" = some "B" ∧
           selectLocation Gen.selectLoc ["A", "gw"] [] "B" "gw" = some "gw" := by decide
+
+/-- **plan level, whole planner** (model `Pl`, tied to plan.go by L1.plan): every field a step asks its service for —
+    written plain, inside inline fragments or inside named fragments, at every depth of the step's selection and of the
+    fragment definitions it carries — is the join id or a field the rule (configured priorities, then the service
+    already being asked, then the gateway, then the first service offering it) assigns to that very service when
+    asked from it.  For every routing table, priority list, document and fuel. -/
+theorem every_field_is_fetched_where_the_rule_puts_it {env : Pl.Env} {fuel : Nat} {operation : String}
+    {sels : List Pl.Sel} {steps : List Pl.Step} (h : Pl.planOperation env fuel operation sels = .ok steps) :
+    ∀ s ∈ steps, Pl.PlacedSels env s.location s.parentType s.sel ∧
+      ∀ f ∈ s.frags, Pl.PlacedSels env s.location f.cond f.sub :=
+  fun s hs => Pl.planOperation_placed h s hs
+
+/-- the rule is stable under re-asking: a field assigned to a service is assigned to it again when asked from it -/
+theorem asked_again_chosen_again {env : Pl.Env} {pl : Pl.Loc} {T f : String} {l : Pl.Loc}
+    (h : Pl.locate env pl T f = .ok l) : Pl.locate env l T f = .ok l :=
+  Pl.locate_stable h
 
 end Props.C20
